@@ -9,7 +9,7 @@ for a in "$@"; do
   prev="$a"
 done
 case "$name" in
-  geo|geo_types|rayon|i_overlay|i_shape|i_float|i_tree|i_key_sort|spade|rstar|earcutr|robust|geographiclib_rs|float_next_after|num_traits|smallvec|hashbrown|heapless)
+  catalogue|geo|geo_types|rayon|i_overlay|i_shape|i_float|i_tree|i_key_sort|spade|rstar|earcutr|robust|geographiclib_rs|float_next_after|num_traits|smallvec|hashbrown|heapless)
     exec "$rustc" "$@" -Zsanitizer=thread -Cunsafe-allow-abi-mismatch=sanitizer \
       -Cllvm-args=-tsan-instrument-memory-accesses=0 -Cllvm-args=-tsan-instrument-func-entry-exit=0 -Cllvm-args=-tsan-instrument-memintrinsics=0 ;;
   *)
